@@ -642,8 +642,9 @@ CLAIM = {
             'bound fvar_bound on |v - popvar| at completion and for every streaming value, stddev likewise '
             '(C12_float_formal_*). Int items mixed with floats: under the stated magnitude assumption the run on a mixed list '
             'equals BIT FOR BIT the run on the converted floats for sum (unconditionally), mean, min, max, variance, stddev '
-            '(C12_mixed_items_*), so the bounds carry over. formal.variance / formal.stddev on all-int lists likewise (C12_mixed_formal_ints*). NOT proved: an error bound for the two-pass formal.variance on lists really mixing ints and floats '
-            '(builtin sum treats an int after the first float differently: the reduction to the float run is refuted there by two evaluated witnesses, C12_mixed_formal_reduction_refuted, replayed on the code by corpus/C12) - tested by the oracle against exact rational arithmetic '
+            '(C12_mixed_items_*), so the bounds carry over. formal.variance / formal.stddev on all-int lists likewise (C12_mixed_formal_ints*). On lists really mixing ints and floats builtin sum treats an int after the first float differently (the reduction to the float run is refuted there '
+            'by two evaluated witnesses, C12_mixed_formal_reduction_refuted, replayed on the code by corpus/C12), so they have their own direct bound '
+            '(C12_mixed_formal_*error_bound*: each uncompensated int addition costs one rounding). All bounds are additionally tested by the oracle against exact rational arithmetic '
             'on every prefix with the explicit bound given in `rule`; the bounds are a-priori bounds, not the sharpest known constants.',
     'note': 'Trusted: Coq kernel+VM incl. primitive 63-bit integers and binary64 floats (evaluation only; no '
             'C12_exact_* theorem depends on them). The C12_float_* theorems depend on '
